@@ -295,18 +295,17 @@ class ConfigParser(ABC):
             if not intf_name.startswith("interface "):
                 raise ValueError("invalid interface")
             if access_group_t := re.findall(r"ip access-group (\S+) (\S+)", intf_cfg):
-                acl_name = access_group_t[0][0]
-                data: DAny = dict(name=acl_name, input="", output="")
                 for acl_name, direction in access_group_t:
                     if not acl_name:
                         raise ValueError(f"absent access-group {acl_name=}")
                     if direction not in ["in", "out"]:
                         raise ValueError(f"invalid access-group {direction=}")
+                    data: DAny = dict(name=acl_name, input="", output="")
                     if direction == "in":
                         data.update(dict(input=intf_name))
                     elif direction == "out":
                         data.update(dict(output=intf_name))
-                access_groups.append(data)
+                    access_groups.append(data)
         return access_groups
 
     def _get_indented_dic(self, i, config_l) -> tuple:
